@@ -227,6 +227,17 @@ pub fn gen_world(rng: &mut Rng, p: &WorldParams) -> WorldSpec {
         }
         spec.push(Entry::dir("etc"));
         spec.push(Entry::file("etc/passwd", "PARENT-ETC-PASSWD"));
+        // the sibling whose name is "<root> (deleted)" (see attack::race_world)
+        spec.push(Entry::dir("root (deleted)"));
+        for (path, kind) in snapshot.iter().take(6) {
+            let d = format!("root (deleted)/{path}");
+            match kind {
+                Kind::Dir => spec.push(Entry::dir(&d)),
+                Kind::Symlink(_) => spec.push(Entry::link(&d, &format!("DELETED-SIBLING-BODY-{path}"))),
+                _ => spec.push(Entry::file(&d, &format!("DELETED-SIBLING-{path}"))),
+            }
+        }
+
     }
     spec
 }
@@ -371,7 +382,8 @@ pub fn gen_mutation(rng: &mut Rng, spec: &WorldSpec, seq: usize) -> Mutation {
     let a = pick(rng);
     let b = pick(rng);
     let last = |p: &str| p.rsplit('/').next().unwrap_or("x").to_string();
-    match rng.below(14) {
+    match rng.below(15) {
+        14 => Mutation::Rename { src: format!("root/{a}"), dst: format!("root (deleted)/moved{seq}-{}", last(&a)) },
         0 | 1 => Mutation::Exchange { a: format!("root/{a}"), b: format!("root/{b}") },
         2 => Mutation::Rename { src: format!("root/{a}"), dst: format!("outside/landing/moved{seq}-{}", last(&a)) },
         3 => Mutation::Rename { src: format!("root/{a}"), dst: format!("root/{b}") },
